@@ -18,6 +18,8 @@
 //verif:stub (*encoding/json.Decoder).Decode -> stubDecodeS
 //verif:stub (*encoding/json.Decoder).Token -> stubTokenS
 //verif:stub strings.EqualFold -> stubEqualFoldS
+//verif:stub (time.Time).Zone -> stubZoneS
+//verif:stub (time.Time).UTC -> stubUTCS
 //verif:stub (crypto.Hash).Available -> stubHashAvail
 //verif:stub (crypto.Hash).New -> stubHashNewS
 //verif:stub crypto/rsa.SignPSS -> stubSignPSS
@@ -96,6 +98,68 @@ type timeText struct {
 
 var timeTexts []timeText
 
+// ---- zones. time.Time.MarshalJSON writes RFC 3339: local clock reading + zone offset in whole MINUTES. A time whose
+// location has an offset with a seconds part therefore reads back as another instant (off by offset % 60 seconds); a
+// local year outside 0..9999 or a zone hour above 23 cannot be written at all (Marshal fails). With zonesModelS on, the
+// request's signing time and expiry each carry an arbitrary zone offset (ghost: time values in the executor have no
+// location; Truncate, Before, After, Equal, IsZero do not depend on it).
+var (
+	zonesModelS      bool
+	zoneOffST        int // seconds east of UTC of req.SigningTime's location
+	zoneOffExp       int // ... of req.Expiry's
+	encodingRefusedS bool
+)
+
+// (time.Time).Zone / UTC: the executor's times carry no location; the offset of the request's two times is the ghost
+// above (0 without the zone model), found by the instant asked about. UTC() returns the same instant and remembers it.
+var utcInstants []time.Time
+var theReqS *signature.SignRequest
+
+func zoneOffsetOf(t time.Time) int {
+	if !zonesModelS || theReqS == nil {
+		return 0
+	}
+	off := rt.IteInt(t.Equal(theReqS.Expiry), zoneOffExp, 0)
+	off = rt.IteInt(t.Equal(theReqS.SigningTime), zoneOffST, off)
+	for _, u := range utcInstants {
+		off = rt.IteInt(t.Equal(u), 0, off)
+	}
+	return off
+}
+func stubZoneS(t time.Time) (string, int) { return "", zoneOffsetOf(t) }
+func stubUTCS(t time.Time) time.Time {
+	if zonesModelS {
+		utcInstants = append(utcInstants, t)
+	}
+	return t
+}
+
+// rfc3339Writable: can MarshalJSON write t in a location off seconds east of UTC?
+func rfc3339Writable(t time.Time, off int) bool {
+	local := t.Unix() + int64(off)
+	yearOK := rt.And(local >= -62167219200, local < 253402300800) // 0000-01-01T00:00:00 .. 9999-12-31T23:59:59 local
+	hourOK := rt.And(off > -24*3600, off < 24*3600)
+	return rt.And(yearOK, hourOK)
+}
+
+// readBack: the instant a reader gets from the text MarshalJSON writes for t in that location
+func readBack(t time.Time, off int) time.Time {
+	return t.Add(time.Duration(off%60) * time.Second)
+}
+
+func textOfTimeZ(t time.Time, off int) string {
+	if !zonesModelS {
+		return textOfTime(t)
+	}
+	s := textOfTime(t)
+	for i := range timeTexts {
+		if rt.Same(timeTexts[i].text, s) {
+			timeTexts[i].t = readBack(t, off)
+		}
+	}
+	return s
+}
+
 func textOfTime(t time.Time) string {
 	for _, x := range timeTexts {
 		if eq := x.t.Equal(t); rt.IsConcrete(eq) && eq {
@@ -144,6 +208,22 @@ func stubJSONMarshal(v any) ([]byte, error) {
 	for _, r := range jsonRecs {
 		if rt.Same(r.v, v) {
 			return r.raw, nil
+		}
+	}
+	if h, isHeader := v.(jwsProtectedHeader); isHeader && zonesModelS {
+		ok := true
+		if h.Expiry != nil {
+			ok = rt.And(ok, rfc3339Writable(*h.Expiry, zoneOffsetOf(*h.Expiry)))
+		}
+		if h.SigningTime != nil {
+			ok = rt.And(ok, rfc3339Writable(*h.SigningTime, zoneOffsetOf(*h.SigningTime)))
+		}
+		if h.AuthenticSigningTime != nil {
+			ok = rt.And(ok, rfc3339Writable(*h.AuthenticSigningTime, zoneOffsetOf(*h.AuthenticSigningTime)))
+		}
+		if !ok {
+			encodingRefusedS = true
+			return nil, rt.NewEnvError("json.time.range")
 		}
 	}
 	raw := rt.Atom(rt.Name("json"))
@@ -261,13 +341,13 @@ func structToMap(s jwsProtectedHeader) map[string]interface{} {
 		m["crit"] = l
 	}
 	if s.Expiry != nil {
-		m["io.cncf.notary.expiry"] = textOfTime(*s.Expiry)
+		m["io.cncf.notary.expiry"] = textOfTimeZ(*s.Expiry, zoneOffsetOf(*s.Expiry))
 	}
 	if s.SigningTime != nil {
-		m["io.cncf.notary.signingTime"] = textOfTime(*s.SigningTime)
+		m["io.cncf.notary.signingTime"] = textOfTimeZ(*s.SigningTime, zoneOffsetOf(*s.SigningTime))
 	}
 	if s.AuthenticSigningTime != nil {
-		m["io.cncf.notary.authenticSigningTime"] = textOfTime(*s.AuthenticSigningTime)
+		m["io.cncf.notary.authenticSigningTime"] = textOfTimeZ(*s.AuthenticSigningTime, zoneOffsetOf(*s.AuthenticSigningTime))
 	}
 	return m
 }
@@ -606,4 +686,6 @@ func newRequest() {
 	keySpecCallsS, chainCallsS = 0, 0
 	attrsS = nil
 	foldIdxS, foldAfterS = -1, false
+	encodingRefusedS = false
+	utcInstants = nil
 }
